@@ -5,7 +5,7 @@
 (* implementation (Trace.tla) or produced by Sem (MC_*.tla, via ModelCall). *)
 (* Each predicate returns "ok", "fail" or "na" (premise does not hold).     *)
 (***************************************************************************)
-EXTENDS Grammar
+EXTENDS Grammar, SequencesExt
 
 NoFlt == [k |-> 0, mode |-> "none"]
 \* what the model prescribes for a call record
@@ -48,8 +48,18 @@ C01Sym(n, b, p) ==
         p.res.ok /\ ValEq(p.res.v, RetOf(b)))
 
 \* C02  build after parse is idempotent and canonical.   cs = <<parse b, build, parse, build>>
+\* Premise: the model itself normalises this input (MC_C02 shows that it does so on the explicit
+\* fragment of the property statement: sequential, well-formed, unambiguous alternatives).
+ModelCanon(n, data, kw) ==
+    LET p1 == ParseCall(n, data, 0, kw) IN
+    /\ ~IsOOM(p1) /\ p1.ok
+    /\ LET b2 == BuildCall(n, p1.v, <<>>, kw) IN
+       /\ ~IsOOM(b2) /\ b2.ok
+       /\ LET p2 == ParseCall(n, b2.s.data, 0, kw) IN
+          /\ ~IsOOM(p2) /\ p2.ok /\ PyEq(p1.v, p2.v)
+          /\ LET b3 == BuildCall(n, p2.v, <<>>, kw) IN ~IsOOM(b3) /\ b3.ok /\ b3.s.data = b2.s.data
 C02Canon(n, p1, b2, p2, b3) ==
-    Tri(Sequential(n) /\ WellFormed(n, TRUE) /\ p1.res.ok /\ ~IsOOM(Model(n, p1)) /\ ~IsOOM(Model(n, b2)),
+    Tri(Sequential(n) /\ WellFormed(n, TRUE) /\ p1.res.ok /\ ModelCanon(n, p1.data, p1.kw),
         /\ b2.res.ok /\ p2.res.ok /\ b3.res.ok
         /\ ValEq(p1.res.v, p2.res.v) /\ b3.res.v = b2.res.v)
 \* bytes the construct itself produced are reproduced exactly.   cs = <<build, parse, build>>
@@ -65,5 +75,59 @@ C05Exact(n, z, x) ==
     Tri(z.res.ok /\ x.res.ok /\ ~AnyNode(n, {"ProcessXor", "ProcessRotateLeft", "NullStripped", "Pointer", "Peek", "Seek", "Union", "RestreamData"}),
         ~z.res.v.neg /\ VInt(Advance(x)) = z.res.v)
 \* ... and fails only with SizeofError
-C05Total(n, z) == Tri(TRUE, z.res.ok \/ z.res.err = "SizeofError")
+\* premise "validly parameterised": the model answers or says SizeofError (negative lengths, modulus < 2,
+\* parameters of the wrong type are outside the statement)
+C05Total(n, z) == LET m == Model(n, z) IN
+    Tri(~IsOOM(m) /\ ((m.ok /\ m.v >= 0) \/ m.err = "SizeofError"), (z.res.ok /\ ~z.res.v.neg) \/ z.res.err = "SizeofError")
+
+---------------------------------------------------------------------------
+\* C06  no value from fewer bytes than the format requires.   cs = <<build, parse of a strict prefix>>
+C06Prefix(n, b, p) ==
+    Tri(NoGreedyOptLookahead(n) /\ b.res.ok /\ Len(p.data) - p.start < Len(b.res.v.b)
+        /\ SubSeq(p.data, p.start + 1, Len(p.data)) = SubSeq(b.res.v.b, 1, Len(p.data) - p.start),
+        ~p.res.ok /\ p.res.err = "StreamError")
+\* a failing stream surfaces as StreamError.   cs = <<fault-free call, same call with a fault>>
+\* (judged by outcome, not by which operation was hit: a short transfer of nothing and a non-seekable
+\* stream that is never sought are not faults)
+C06Fault(n, clean, f) ==
+    Tri(clean.res.err # "Watchdog" /\ f.res.err # "Watchdog",
+        /\ (f.res.ok \/ IsConstructError(f.res.err))
+        /\ NoRecover(n) =>
+              \/ (~f.res.ok /\ f.res.err = "StreamError")
+              \/ (f.flt.mode # "raise" /\ f.res.ok = clean.res.ok /\ f.res.err = clean.res.err /\ f.res.v = clean.res.v)
+              \* a short read-to-end-of-stream cannot be told from end of stream
+              \/ (f.flt.mode = "short" /\ ~NoGreedyOptLookahead(n)))
+
+\* C12  documented equivalences.   cs = <<call on lhs, the same call on rhs>> (programs may differ)
+C12Equiv(l, r) ==
+    Tri(TRUE, /\ l.res.ok = r.res.ok
+              /\ l.res.ok => (ValEq(l.res.v, r.res.v) /\ (l.op = "parse" => l.res.p = r.res.p)))
+
+\* C14  checksums built always verify; corruption is detected
+C14Verifies(n, b, p) == Tri(b.res.ok, p.res.ok)
+C14Detects(n, b, p) == Tri(b.res.ok /\ p.data # b.res.v.b, ~p.res.ok /\ p.res.err = "ChecksumError")
+\* RawCopy: building from value or from data emits the same bytes.  cs = <<build {value}, build {data}>>
+C14SameBytes(n, bv, bd) == Tri(bv.res.ok, bd.res.ok /\ bd.res.v = bv.res.v)
+
+\* C18  truncation localises: the error path names the members whose extent contains the cut.
+\* cs = <<parse of a canonical encoding (successful), parse of its prefix of length j>>
+RECURSIVE ChainAt(_, _, _, _, _)
+\* names of the Renamed nodes (outermost first) whose extent [pin, pout) in the successful behaviour contains j
+ChainAt(ev, i, j, opens, acc) ==
+    IF i > Len(ev) THEN acc
+    ELSE IF ev[i].e = "in" THEN ChainAt(ev, i + 1, j, Append(opens, [nm |-> ev[i].nm, p |-> ev[i].p, at |-> i]), acc)
+    ELSE LET o == opens[Len(opens)] IN
+         ChainAt(ev, i + 1, j, SubSeq(opens, 1, Len(opens) - 1),
+                 IF o.nm # "" /\ o.p <= j /\ j < ev[i].p THEN Append(acc, [nm |-> o.nm, at |-> o.at]) ELSE acc)
+SortByAt(xs) == SortSeq(xs, LAMBDA a, b : a.at < b.at)
+PreReading == {"Prefixed", "FixedSized", "Transformed", "Restreamed", "NullTerminated", "NullStripped", "ProcessXor",
+               "ProcessRotateLeft", "OffsettedEnd", "Compressed", "Padded", "Aligned", "RawCopy", "Checksum"}
+IsPrefixSeq(a, b) == Len(a) <= Len(b) /\ SubSeq(b, 1, Len(a)) = a
+C18Trunc(n, full, cut) ==
+    LET j == Len(cut.data)
+        chain == SortByAt(ChainAt(full.events, 1, j, <<>>, <<>>))
+        names == <<"(parsing)">> \o [i \in 1..Len(chain) |-> chain[i].nm]
+    IN Tri(Sequential(n) /\ NoRecover(n) /\ full.res.ok /\ ~cut.res.ok /\ IsConstructError(cut.res.err) /\ j < full.res.p,
+           /\ IsPrefixSeq(cut.res.path, names)
+           /\ (~AnyNode(n, PreReading)) => cut.res.path = names)
 =============================================================================
